@@ -15,13 +15,13 @@ Definition logs_something (s : store) (t : tm) (o : op) : bool :=
 
 (** events of one session that make the next reopen differ from the state at close *)
 Record kflags := mkK {
-  k_cp : bool;     (* C05-K1: explicit checkpoint while the log holds uncommitted data records *)
+  k_cp : bool;     (* C05-K1 (repaired by 14ec16a, no longer a class): explicit checkpoint while the log holds uncommitted data records *)
   k_rm : bool;     (* C05-K2: a remove_*_property call that removed something *)
   k_sess : bool;   (* C05-K3: a mutation through a session / query *)
   k_rot : bool     (* C05-K4: the log was rotated (explicitly or because a file reached max_log_size) *)
 }.
 Definition k0 : kflags := mkK false false false false.
-Definition kclean (k : kflags) : bool := negb (k_cp k || k_rm k || k_sess k || k_rot k).
+Definition kclean (k : kflags) : bool := negb (k_rm k || k_sess k || k_rot k).
 
 Section Classes.
   Variable crc : bytes -> Z.
@@ -71,7 +71,7 @@ Section Classes.
       codec to carry exactly these) *)
   Definition step_logs (st : dbstate) (o : op) : list record :=
     match o with
-    | OCheckpoint => [Checkpoint (fst (last_or_begin (db_tm st)))]
+    | OCheckpoint => let tx := fst (last_or_begin (db_tm st)) in [TxCommit tx; Checkpoint tx]
     | ORotate | OSync => []
     | _ => match op_effect (db_store st) (db_tm st) o with (_, _, rs, _) => rs end
     end.
@@ -106,7 +106,7 @@ Section Classes.
   Definition k06_1 (d : disk) : bool := existsb is_data (leftover crc dec (synced_disk d)).
   (** C06-K2: the file the writer will append to does not consist of whole intact frames *)
   Definition k06_2 (d' : disk) : bool :=
-    negb (clean_file crc record dec (f_bytes (active (wopen d')))).
+    negb (clean_file crc record dec (f_bytes (active (wopen_pre d')))).
   (** C06-K3: a file in recovery range lost records while a later file still contributes some *)
   Fixpoint k3_files (minseq : Z) (orig img : list (Z * file)) : bool :=
     match orig, img with
